@@ -123,6 +123,19 @@ def run(shard, rec, tier, seed):
             rec.violation("hash-mismatch-on-repeat", "server_verification_hash(%d) = %d on a repeated call, the client computes %d" % (c, real(c), py_oracle(c)), {"challenge": c})
             break
     rec.count("repeated-shuffled-calls", 2 * len(picks))
+    # the parameter passed by name, and as an int-like object
+    class _I(int):
+        pass
+    for c in picks[:400]:
+        try:
+            a, b = real(challenge=c), real(_I(c))
+        except Exception as ex:
+            rec.violation("raises", "server_verification_hash(challenge=%d) / (int subclass) raised %r" % (c, ex), {"challenge": c})
+            break
+        if a != py_oracle(c) or b != py_oracle(c):
+            rec.violation("hash-mismatch-on-repeat", "server_verification_hash(challenge=%d) = %r, with an int subclass %r, the client computes %d" % (c, a, b, py_oracle(c)), {"challenge": c})
+            break
+    rec.count("keyword-and-int-like-calls", 800)
     if lo == 0:
         rec.sample({"challenge": 0, "hash": real(0)})
     if lo <= 11092479 < hi:
